@@ -1298,6 +1298,9 @@ SPECIALS = ([{"family": "online", "node": nd, "trained": tr, "how": how} for nd 
             + [{"family": "legacyreload", "fb": fb} for fb in (False, True)]
             + [{"family": "interleaved", "how": hw, "fitted_before": fb} for hw, fb in ((("deepcopy", "pickle"), True), (("deepcopy", "deepcopy"), True),
                                                                                       (("pickle", "pickle"), False))]
+            + [{"family": "midtraining", "chain": ch, "train_first": tf}
+               for ch, tf in ((["nodecopy"], "copy"), (["pickle", "nodecopy"], "copy"), (["deepcopy", "nodecopy"], "original"), (["nodecopy", "nodecopy"], "copy"),
+                              (["pickle", "deepcopy"], "original"), (["nodecopy", "pickle", "nodecopy"], "copy"))]
             + [{"family": "concatrefit", "how": how, "names": nm, "widths": w, "fit_before": fbf}
                for how, nm, w, fbf in (("deepcopy", ["in", "in2"], [2, 3], False), ("pickle", ["in", "in2"], [2, 2], True),
                                        ("deepcopy", ["R-1", "R-10"], [2, 2], False), ("deepcopy", ["a", "b"], [2, 3], True),
@@ -1479,6 +1482,60 @@ def _judge_interleaved(sc):
     return None
 
 
+def _judge_midtraining(sc):
+    """a Ridge IN THE MIDDLE of an incremental training (partial_fit done, fit() not yet) is copied by a CHAIN of copy operations (e.g. pickle round trip then
+    Node.copy), the last copy is trained further, then both sides finish with fit(): the original ends with the solution of its own batches only, the copy
+    with the solution of all of them (the copies share no accumulator)"""
+    import copy as _copy
+    import pickle
+    import reservoirpy as rpy
+    rpy.verbosity(0)
+    from reservoirpy.nodes import Ridge
+    rs = np.random.RandomState(sc["seed"] % (2 ** 31))
+    T = 8
+
+    def data():
+        return rs.randint(-8, 9, (T, 3)) / 4.0, rs.randint(-8, 9, (T, 2)) / 4.0
+    D = [data() for _ in range(4)]
+    tag = sc["tag"]
+
+    def cp(node, how):
+        if how == "deepcopy":
+            return _copy.deepcopy(node)
+        if how == "pickle":
+            return pickle.loads(pickle.dumps(node))
+        return node.copy()
+    try:
+        orig = Ridge(ridge=0.125, name="mt%s_o" % tag)
+        orig.partial_fit(*D[0])
+        node = orig
+        chain = []
+        for how in sc["chain"]:
+            node = cp(node, how)
+            chain.append(node)
+        clone = chain[-1]
+        base = chain[-2] if len(chain) > 1 else orig          # the node the last copy was taken from
+        order = sc["train_first"]
+        if order == "copy":
+            clone.partial_fit(*D[1]); clone.partial_fit(*D[2]); base.partial_fit(*D[3])
+        else:
+            base.partial_fit(*D[3]); clone.partial_fit(*D[1]); clone.partial_fit(*D[2])
+        base.fit(); clone.fit()
+        for lab, node, idx in (("node the copy was taken from", base, [0, 3]), ("copy", clone, [0, 1, 2])):
+            ref = Ridge(ridge=0.125, name="mt%s_r%s" % (tag, lab[0]))
+            for i in idx:
+                ref.partial_fit(*D[i])
+            ref.fit()
+            if not (np.allclose(node.Wout, ref.Wout, rtol=1e-9, atol=1e-9) and np.allclose(node.bias, ref.bias, rtol=1e-9, atol=1e-9)):
+                return _viol("copy:mid-training-accumulators-shared", "a Ridge after one partial_fit, copied by the chain %s, both sides trained further (the %s first) and "
+                             "finished with fit(): the %s does not end with the solution of a fresh node given its own batches (max |dWout| = %.3g): the "
+                             "training accumulators are shared between a node and its copy" % (" -> ".join(sc["chain"]), order, lab,
+                                                                                               float(np.max(np.abs(node.Wout - ref.Wout)))), sc)
+    except Exception as e:  # noqa: BLE001
+        return _viol("copy:mid-training:exception", "copying a Ridge in the middle of an incremental training (%s) raises %r" % (" -> ".join(sc["chain"]), e), sc)
+    return None
+
+
 def _judge_legacy_reload(sc):
     """a legacy ESN saved ONCE; a first loaded instance is edited in place by its user (W *= 0.5, Wout[:] = 0, Win += 1): loading the saved model a
     second time, and converting it with load_compat, still reproduce the outputs of the model that was saved (a loaded model shares nothing with the files)"""
@@ -1531,6 +1588,8 @@ def _judge(sc):
         return _judge_interleaved(sc)
     if sc["family"] == "legacyreload":
         return _judge_legacy_reload(sc)
+    if sc["family"] == "midtraining":
+        return _judge_midtraining(sc)
     if sc["family"] == "legacy_noise":
         return _judge_legacy_noise(sc)
     if sc["family"] == "collision":
